@@ -78,11 +78,17 @@ pub fn eval_case(c: &Case, allowed: &features::Allowed, fd: i32) -> Outcome {
                 ),
                 Caught::Ok(Ok(bytes)) => {
                     let mut strict = rxcdr::decode(&c.ty, &bytes, Some(enc));
-                    if strict.is_err() && enc.ver == Ver::V1 {
+                    let strict_wrong = match &strict {
+                        Err(_) => true,
+                        Ok((v2, _)) => v2 != val,
+                    };
+                    if strict_wrong && enc.ver == Ver::V1 {
                         // tolerated reading of PUSH(ORIGIN=0): not restored after the parameter
                         if let Ok(x) = rxcdr::decode_opt(&c.ty, &bytes, Some(enc), true) {
-                            o.class("tolerated:xcdr1-origin-not-restored-after-parameter");
-                            strict = Ok(x);
+                            if &x.0 == val {
+                                o.class("tolerated:xcdr1-origin-not-restored-after-parameter");
+                                strict = Ok(x);
+                            }
                         }
                     }
                     match strict {
